@@ -32,6 +32,19 @@ static void data_clear(void) { g_data_p = 0; g_data_n = 0; g_data_set = 1; }
 #define FILE_OK (g_F_len <= BUF_CAP && __CPROVER_r_ok(g_F, g_F_len) && g_pos <= g_F_len)
 '''
 
+PRE += r'''
+/* ---- writer: what save_to_file hands to write_all, in which order (the crash model itself -- which prefix of these bytes reaches the disk -- is what the reader contracts quantify over) */
+int g_w_calls; unsigned char g_w_hdr[16]; size_t g_w_n[2]; void const *g_w_p[2]; bool g_w_ok[2]; char const *g_wcrc_p; size_t g_wcrc_n; int g_wcrc_calls; uint32_t g_wcrc_val;
+static bool write_all_rec(int fd, void const *p, int n)
+{
+  int c = g_w_calls; if(g_w_calls < 3) g_w_calls++;
+  if(c < 2) { g_w_p[c] = p; g_w_n[c] = (size_t)n; if(c == 0 && n == 16) memcpy(g_w_hdr, p, 16); return g_w_ok[c]; }
+  return 0;
+}
+static void wcrc_process(char const *p, size_t n) { if(g_wcrc_calls < 2) g_wcrc_calls++; g_wcrc_p = p; g_wcrc_n = n; }
+static uint32_t wcrc_checksum(void) { return g_wcrc_calls == 1 ? g_wcrc_val : 0; }
+'''
+
 functions = [
     dict(stub=True, cname='read_stub', sig='int read_stub(int fd, char *buf, int n)',
          contract='/* POSIX read() on a regular file: min(n, bytes left) bytes from the cursor, 0 at end of file; or -1/EINTR with nothing transferred */\n'
@@ -91,6 +104,18 @@ __CPROVER_assigns(g_pos, verif_errno, g_n0, g_pos0)
 __CPROVER_ensures((g_F_len >= 8 && (int64_t)LE64(g_F) >= (int64_t)g_now) ==> __CPROVER_return_value)
 __CPROVER_ensures(__CPROVER_return_value ==> g_F_len >= 8)
 '''),
+    dict(cname='sf_save_to_file', file=F, locate=lit('void session_file_storage::save_to_file(int fd,time_t timeout,std::string const &in)'), sig='void sf_save_to_file(int fd, time_t timeout, char const *in_p, size_t in_n)', throw_ret='',
+         rewrites=[(r'static_cast<uint32_t>', '(uint32_t)', 0), (r'in\.size\(\)', 'in_n', 1), (r'in\.data\(\)', 'in_p', 1), (r'impl::crc32_calc crc_calc;', '', 1), (r'crc_calc\.process_bytes\(', 'wcrc_process(', 0),
+                   (r'crc_calc\.checksum\(\)', 'wcrc_checksum()', 0), (r'\bwrite_all\(', 'write_all_rec(', 0)],
+         contract=r'''
+__CPROVER_requires(in_n <= 0x7fffffff && verif_thrown == 0 && g_w_calls == 0 && g_wcrc_calls == 0)
+__CPROVER_assigns(verif_thrown, g_w_calls, __CPROVER_object_whole(g_w_hdr), __CPROVER_object_whole(g_w_n), __CPROVER_object_whole(g_w_p), g_wcrc_calls, g_wcrc_p, g_wcrc_n)
+/* C18: a save writes the 16-byte header {deadline, CRC-32 of exactly the data, size of the data} FIRST and the data SECOND, nothing else; this is the record read_from_file accepts
+   (deadline at 0, crc at 8, size at 12, size bytes checksummed); any failed write is reported, never ignored */
+__CPROVER_ensures(g_wcrc_calls == 1 && g_wcrc_p == in_p && g_wcrc_n == in_n)
+__CPROVER_ensures(g_w_calls >= 1 && g_w_n[0] == 16 && (int64_t)LE64(g_w_hdr) == (int64_t)timeout && LE32(g_w_hdr + 8) == g_wcrc_val && LE32(g_w_hdr + 12) == (uint32_t)in_n)
+__CPROVER_ensures(g_w_ok[0] ? (g_w_calls == 2 && g_w_p[1] == in_p && g_w_n[1] == in_n && verif_thrown == !g_w_ok[1]) : (g_w_calls == 1 && verif_thrown))
+'''),
 ]
 PRE += 'int g_n0; size_t g_pos0; int verif_errno;\n'
 
@@ -110,6 +135,10 @@ jobs = [
     dict(name='sf_read_timestamp', props=P, enforce='sf_read_timestamp', replace=['sf_read_all'], harness=FILE_SETUP + r'''
     __CPROVER_assume(k < 8); g_pos = 0;
     sf_read_timestamp(3); VERIF_REACH;''', witness=dict(bufs=['file'], vals=['now']), replay='c18:read_timestamp', replay_link=['-L{BUILD}', '-lcppcms', '-L{BUILD}/booster', '-lbooster', '-lz']),
+    dict(name='sf_save_to_file', props=P, enforce='sf_save_to_file', harness=r'''
+    size_t n; __CPROVER_assume(n <= 0x7fffffff); char *d = malloc(n); __CPROVER_assume(d != NULL); time_t to; uint32_t cv; int o0, o1; g_wcrc_val = cv; g_w_ok[0] = o0 != 0; g_w_ok[1] = o1 != 0;
+    verif_thrown = 0; g_w_calls = 0; g_wcrc_calls = 0;
+    sf_save_to_file(3, to, d, n); VERIF_REACH;'''),
 ]
 
 UNIT = dict(
@@ -120,5 +149,5 @@ UNIT = dict(
     observations=['a header whose size field is >= 2^31 makes read_all(fd,buf,int(size)) a no-op returning true, so `size` zero bytes would be checksummed instead of file content (needs a matching CRC of zeros in the header; outside the contract)',
                   'read_all/write_all never advance the buffer pointer after a partial transfer; for regular files a short read only happens at end of file, a short write leaves a CRC mismatch, so C18 still holds',
                   'a torn header can pair the OLD payload and checksum with the NEW deadline (deadline of another save): allowed by the property text'],
-    not_covered={'C18': ['save_to_file ordering and fsync/sector model of the crash itself (the reader is proved against EVERY file content instead)', 'locking (locked_file), unlink on failed load, gc directory walk']},
+    not_covered={'C18': ['fsync/sector model of the crash itself (the reader is proved against EVERY file content instead; the writer contract fixes what is written and in which order)', 'write_all (never advances its buffer after a short write: observation)', 'locking (locked_file), unlink on failed load, gc directory walk']},
 )
